@@ -432,6 +432,8 @@ def summarize(pid, tier, seed, mod, results, wall, verbose):
         lines.insert(0, 'KNOWN-FINDING: property=%s %s [label=%s sig=%s; %d paths in %s]' % (
             pid, k['what'], k.get('label'), k.get('sig'), cnt, ','.join(sorted(hs))))
     for m in mismatches[:10]:
+        if verbose:
+            print('MISMATCH-INPUTS', m['harness'], m.get('inputs'), m.get('choices'), flush=True)
         errors.append('native replay mismatch (%s) in %s %s: %s' % (m['kind'], m['harness'], m['case'],
                                                                       m['detail'][:700]))
     if len(mismatches) > 10:
